@@ -646,3 +646,13 @@ func getMetadataNonNil(cmd command) bool {
 //@   results (result bool)
 //@   requires data != nil && getMetadataNonNil(anyCmd)
 //@   ensures result == metadataGoesTo(anyCmd, data.Mailbox)
+
+// A continuation request from the server answers the OLDEST pending literal
+// (commands are written one at a time, so requests are granted in the order
+// they were registered): exactly that request is granted and removed, the
+// others keep their order.
+//
+//@ func (c *Client) readContinueReq() (err error)
+//@   props C12:post,callsite
+//@   callsite ContinuationRequest.Done(cont *imapwire.ContinuationRequest, text string) requires old(len(c.contReqs)) > 0 && cont == old(c.contReqs[0].ContinuationRequest)
+//@   ensures old(len(c.contReqs)) > 0 && __called("ContinuationRequest.Done") ==> len(c.contReqs) == old(len(c.contReqs))-1 && (forall k int :: 0 <= k && k < len(c.contReqs) ==> c.contReqs[k].ContinuationRequest == old(c.contReqs[k+1].ContinuationRequest) && c.contReqs[k].cmd == old(c.contReqs[k+1].cmd))
